@@ -64,6 +64,8 @@ struct GenOpts {
     bool late_edits = false;                // later blocks also carry WPIMULT, WSEGVALV (MSW wells), COMPDAT re-specification, WECON, WTEST on wells that exist since block 0
     bool udq_unary_minus = false;           // UDQ DEFINE expressions with a unary minus (-FOPT * 2, -(FOPT + 10), -WOPT)
     bool per_step_kws = false;              // C04 exception clauses: global / connection WPIMULT (power-of-two factors) and connection-level WELOPEN in ACTIONX bodies; connection-level WELOPEN in later blocks
+    bool frac_dates = false;                // ACTIONX date comparisons with a non-integer right-hand side (DAY > 15.5, YEAR < 2025.25, MNTH = 4.3)
+    bool wecon_full = false;                // WECON records also set min gas rate, max GOR, max WGR and the workover procedure
     bool tuning_vfp = false;                // NEXTSTEP in ACTIONX bodies and later blocks; a VFPPROD table in block 0 that later blocks define again
     bool family_snippets = false;           // later blocks carry complete keywords of further families (group controls, gas lift, guide rates, RFT, well lists, VFPINJ, TUNING, RPTRST ...)
     bool family_static_free = false;        // leave out the families from whose mere presence the library infers run-wide configuration (LIFTOPT -> ALQ meaning of VFPPROD tables, GRUPNET -> network active): C03
